@@ -34,7 +34,7 @@ const ENC_PROPS: [&str; 8] = ["C01", "C03", "C04", "C05", "C06", "C07", "C08", "
 const STATE_PROPS: [&str; 9] = ["C02", "C09", "C10", "C11", "C12", "C13", "C14", "C15", "C17"];
 
 pub fn applies(prop: &str) -> bool {
-    ENC_PROPS.contains(&prop) || STATE_PROPS.contains(&prop) || prop == "C19"
+    ENC_PROPS.contains(&prop) || STATE_PROPS.contains(&prop) || prop == "C19" || prop == "C18"
 }
 
 /// The A-events: everything the other engines' alphabets contain, every basic
@@ -233,6 +233,24 @@ impl BJudge {
                     }
                 }
             }
+        } else if prop == "C18" {
+            // the two validators (the only header-view entry points the receive path itself calls)
+            for version in [0u8, 1, 2, 0x0F, 0x11, 0xFF] {
+                for b0 in 0..=255u8 {
+                    self.n_judged += 1;
+                    self.n_calls += 1;
+                    if let (_, Some(d)) = crate::props::c18::judge_transport_validator(&[b0, 0x22, 0x33, 0xC8], version) {
+                        out.push(d);
+                    }
+                }
+            }
+            for b in 0..=255u8 {
+                self.n_judged += 1;
+                self.n_calls += 1;
+                if let (_, Some(d)) = crate::props::c18::judge_body_validator(b) {
+                    out.push(d);
+                }
+            }
         } else if ENC_PROPS.contains(&prop.as_str()) {
             let cfg = encprops::encseq_cfg();
             let ixs: Vec<usize> = if level == Level::Full { (0..self.calls.len()).collect() } else { self.small_calls.clone() };
@@ -348,7 +366,7 @@ pub fn child(prop: &str, lo: usize, hi: usize, no_a: bool) -> i32 {
             let _ = subject::apply(&mut a.borrow_mut(), &first);
             applied.set(applied.get() + 2);
         }
-        if prop == "C19" && !no_a {
+        if (prop == "C19" || prop == "C18") && !no_a {
             // no context is involved in a conversion: A simply goes first
             let _ = subject::apply(&mut a2.borrow_mut(), &ev);
             let _ = subject::apply(&mut a.borrow_mut(), &ev);
